@@ -134,7 +134,32 @@ def model_vec(rng, genjax, jnp):
     return vec, (), start, logp, {"name": "vec", "vector": [("w",)]}
 
 
-MODELS = [model_chain, model_pos, model_hier, model_vec]
+def model_switch(rng, genjax, jnp):
+    """A switch between two normals at one shared address, driven by an index that may lie outside
+    the branch range (the combinator clamps it), as a Python int or an array."""
+    m1, s1, m2, s2, s3 = _r(rng, -1, 1), _r(rng, 0.6, 1.6), _r(rng, 1.0, 3.0), _r(rng, 0.4, 1.2), _r(rng, 0.4, 1.2)
+    k = int(rng.choice([-2, -1, 0, 1, 2, 5]))
+    idx = jnp.asarray(k, jnp.int32) if rng.random() < 0.7 else k
+    sw = genjax.normal.switch(genjax.normal)
+
+    @genjax.gen
+    def swm(i):
+        x = sw(i, (m1, s1), (m2, s2)) @ "s"
+        y = genjax.normal(x, s3) @ "y"
+        return y
+
+    kk = min(max(k, 0), 1)
+    mm, ss = (m1, s1) if kk == 0 else (m2, s2)
+    start = {("s",): _r(rng, -1.5, 1.5), ("y",): _r(rng, -1.5, 1.5)}
+
+    def logp(v):
+        x, y = v[("s",)], v[("y",)]
+        return dens.lp_normal(x, mm, ss) + dens.lp_normal(y, x, s3)
+
+    return swm, (idx,), start, logp, {"name": "switch", "real": [("s",)]}
+
+
+MODELS = [model_chain, model_pos, model_hier, model_vec, model_switch]
 
 
 # --------------------------------------------------------------------------------- proposals
@@ -210,7 +235,12 @@ def build_case(rng, genjax, jnp, want_tap=False):
         pool = [(a, "real", False) for a in info.get("real", [])] + [(a, "pos", False) for a in info.get("positive", [])] + [(a, "real", True) for a in info.get("vector", [])]
         addr, dom, isvec = pool[int(rng.integers(len(pool)))]
         pname, dist, jargs, nargs, lq, dep = leaf_proposal(rng, genjax, jnp, dom, vector=isvec)
-        rej = Rejuvenate(dist, lambda chm: jargs(chm.get_value()))
+        def _cur(chm):
+            # a switch trace reports its choice as Mask(value, flag): the mapping reads the value
+            v = chm.get_value()
+            return v.value if type(v).__name__ == "Mask" else v
+
+        rej = Rejuvenate(dist, lambda chm: jargs(_cur(chm)))
         case.update(
             request=_nest_request(genjax, addr, rej),
             proposed=[addr],
